@@ -62,6 +62,7 @@ type Contract struct {
 type Lemma struct {
 	Axiom    bool // "//@ axiom name": assumed (listed as trusted), available to every obligation of its package
 	ModeBV   bool
+	Bridge   bool
 	Name     string
 	Pkg      *packages.Package
 	Props    []string
@@ -524,8 +525,11 @@ func (e *Engine) parseContractFile(p *packages.Package, f *ast.File, fname strin
 			if cur != nil && rest == "bv" {
 				cur.ModeBV = true
 			}
-			if curLemma != nil && rest == "bv" {
+			if curLemma != nil && (rest == "bv" || rest == "bv bridge") {
 				curLemma.ModeBV = true
+				// "mode bv bridge": proved over bit-vectors, and then available as a fact about the
+				// uninterpreted integer bit operations (a & b, a | b, a << b) of the same package
+				curLemma.Bridge = rest == "bv bridge"
 			}
 		case "ghost":
 			if cur != nil {
